@@ -1507,7 +1507,7 @@ func sameContainer(recv ssa.Value, fld *types.Var, glob *ssa.Global) bool {
 func typedByWriters(p *Prog, x *ssa.TypeAssert) string {
 	var src *ssa.Call
 	for _, r := range Roots(x.X, false) {
-		if cl, _ := CallOfValue(r); cl != nil && MatchCC(&cl.Call, Spec{"sync", "Map", "Load"}, Spec{"sync", "Pool", "Get"}) {
+		if cl, _ := CallOfValue(r); cl != nil && MatchCC(&cl.Call, Spec{"sync", "Map", "Load"}, Spec{"sync", "Map", "LoadOrStore"}, Spec{"sync", "Map", "LoadAndDelete"}, Spec{"sync", "Pool", "Get"}) {
 			src = cl
 		} else if types.Identical(r.Type(), x.AssertedType) {
 			// the freshly created value of the asserted type on the miss path (Roots looks through the boxing)
